@@ -195,7 +195,7 @@ func (st *treeState) stackOpts(t *rapid.T, n *Node) {
 		n.FIFO = rapid.IntRange(0, 2).Draw(t, "fifo") == 0
 	}
 	if g.Wraps {
-		n.Wrap = rapid.IntRange(0, 4).Draw(t, "wrap")
+		n.Wrap = rapid.IntRange(0, 6).Draw(t, "wrap")
 	}
 }
 
@@ -282,7 +282,7 @@ func (st *treeState) cond(t *rapid.T, depth int) Node {
 		}
 	}
 	if g.Wraps {
-		n.Wrap = rapid.IntRange(0, 4).Draw(t, "cwrap")
+		n.Wrap = rapid.IntRange(0, 6).Draw(t, "cwrap")
 	}
 	return n
 }
